@@ -8,8 +8,8 @@ from .spec import Sym
 
 
 class LoopSpec:
-    def __init__(self, header, inv, shapes=None, ordinal=0, elem=None):
-        self.header, self.inv, self.shapes, self.ordinal, self.elem = header, inv, shapes or {}, ordinal, elem
+    def __init__(self, header, inv, shapes=None, ordinal=0, elem=None, body_post=None):
+        self.header, self.inv, self.shapes, self.ordinal, self.elem, self.body_post = header, inv, shapes or {}, ordinal, elem, body_post
 
 
 class Contract:
